@@ -37,6 +37,8 @@ def run(ctx):
     from . import c09
     ctx.alias = {'R4': 'R2'}
     c09.r4_delegation(ctx)       # the chain transpose -> transpose_agnostics -> AgnosticPitch.to_transposed forwards interval and direction
+    ctx.alias = {'R3': 'R7'}
+    c09.r3_arithmetic(ctx)       # ... and to_transposed moves up exactly when the direction EQUALS 'up' (value, not identity)
     ctx.alias = {}
 
 
